@@ -27,7 +27,9 @@ def enc(o):
         if math.isnan(o) or math.isinf(o):
             return {'__f__': repr(o)}
         return {'__f__': o.hex()} if o != 0 and (abs(o) < 1e-300) else o
-    if isinstance(o, (bytes, bytearray)):
+    if isinstance(o, bytearray):
+        return {'__ba__': bytes(o).hex()}
+    if isinstance(o, bytes):
         return {'__b__': bytes(o).hex()}
     if isinstance(o, tuple):
         return {'__t__': [enc(x) for x in o]}
@@ -55,6 +57,8 @@ def dec(o):
                     else float(v)
             if k == '__b__':
                 return bytes.fromhex(v)
+            if k == '__ba__':
+                return bytearray.fromhex(v)
             if k == '__t__':
                 return tuple(dec(x) for x in v)
             if k == '__s__':
